@@ -1027,8 +1027,8 @@ class ComplexGammatoneFilterBank(LinearFilterBank):
             )
             alpha = np.exp(log_alpha)
             if scale_l2_norm:
-                log_c = 0.5 * (log_2 + log_alpha + log_double_factorial)
-                log_c -= order * (log_alpha + log_2)
+                log_c = order * (log_alpha + log_2)
+                log_c -= 0.5 * (log_2 + log_alpha + log_double_factorial)
             else:
                 log_c = order * log_alpha - log_factorial
             c = np.exp(log_c)
